@@ -69,6 +69,7 @@ class Netlist:
     def _build(self):
         cells = self.cells
         self.in_vars = {}           # port name -> BV var (None for zero width)
+        self.tied = {}              # input var name -> constant (undriven signals the contract does not treat as free)
         self._topbits = {}
         for name, (start, width) in self.top.ports_i.items():
             v = z3.BitVec(f"in!{name}", width) if width > 0 else None
@@ -236,10 +237,14 @@ class Netlist:
                 prev = z3.Or(prev, x)
             r = outs[0] if len(outs) == 1 else z3.Concat(*reversed(outs))
         elif isinstance(c, _nir.AssignmentList):
-            cur = self._val(c.default); w = cur.size()
+            cur = self._val(c.default)
+            if cur is None:
+                self._cellout[ci] = None
+                return None
+            w = cur.size()
             for a in c.assignments:
                 av = self._val(a.value); lo = a.start
-                if lo >= w:
+                if av is None or lo >= w:
                     continue
                 hi = lo + av.size()
                 if hi > w:
@@ -267,6 +272,17 @@ class Netlist:
     def _operator(self, c):
         a = [self._val(i) for i in c.inputs]
         op = c.operator
+        if any(x is None for x in a):
+            # zero-width operands (z3 has no 0-bit vectors): results follow Amaranth's semantics of the empty value 0
+            if op in ("b", "r|", "r^", "!=", "u<", "u>", "s<", "s>"):
+                return z3.BitVecVal(0, 1)
+            if op in ("r&", "==", "u<=", "u>=", "s<=", "s>="):
+                return z3.BitVecVal(1, 1)
+            if op == "m" and a[1] is None:
+                return None
+            if op in ("<<", "u>>", "s>>") and a[0] is not None:
+                return a[0]
+            return None
         if op == "~": return ~a[0]
         if op == "-" and len(a) == 1: return -a[0]
         if op in ("b", "r|"): return _bv1(a[0] != 0)
@@ -329,6 +345,16 @@ class Netlist:
     def has(self, sig):
         return id(sig) in self._sig
 
+    def tie_off(self, sig):
+        """Declare that `sig`, if nothing in the design drives it, is NOT an environment input: an undriven signal
+        keeps its init value in hardware (Amaranth lists undriven ports as netlist inputs; the contract decides
+        which of those are genuinely free)."""
+        v = self._in_by_sig.get(id(sig))
+        if v is not None:
+            self.tied[v.decl().name()] = z3.BitVecVal(sig.init & ((1 << len(sig)) - 1), len(sig))
+            return True
+        return False
+
     def sig_expr(self, sig):
         """Current-cycle value of a Signal as a term over the base state/input variables."""
         if id(sig) not in self._sig:
@@ -349,7 +375,7 @@ class Netlist:
         return [(self._sig_obj[i], v) for i, v in self._sig.items()]
 
     def input_signals(self):
-        return [self._sig_obj[i] for i in self._in_by_sig]
+        return [self._sig_obj[i] for i, v in self._in_by_sig.items() if v is None or v.decl().name() not in self.tied]
 
     def ff_signals(self):
         return [(self._sig_obj[i], ci) for i, ci in self._ff_by_sig.items()]
@@ -393,6 +419,8 @@ class Frame:
                 continue
             if name == "rst" and rst is not None:
                 nv = z3.BitVecVal(rst, 1)
+            elif v.decl().name() in nl.tied:
+                nv = nl.tied[v.decl().name()]
             else:
                 nv = z3.BitVec(f"{name}@{tag}", v.size())
             self.inputs[name] = nv
@@ -425,9 +453,11 @@ class Frame:
         return self._cache[k]
 
     def inp(self, sig):
+        if not self.nl.is_input(sig):
+            raise KeyError(f"{sig!r} is not a top-level input")
         v = self.nl.input_var(sig)
         if v is None:
-            raise KeyError(f"{sig!r} is not a top-level input")
+            return None            # zero-width input
         return self.inst(v)
 
     def next_state(self, idx):
